@@ -27,11 +27,25 @@ def model_sources():
     return res
 
 
-def ensure_model():
-    if os.path.exists(common.SPMODEL) and os.path.getmtime(common.SPMODEL) >= newest(model_sources()):
-        return True, ""
-    r = common.sh("./build.sh 2>&1 | tail -30", cwd=os.path.join(common.VERIF, "extract"))
-    return os.path.exists(common.SPMODEL) and "rror" not in r.stdout, r.stdout
+def ensure_model(domains):
+    """Per-domain driver binaries extract/spmodel_<Dom> (so that one domain's
+    build problem cannot break another property's check)."""
+    logs = []
+    ok = True
+    for d in domains:
+        binary = os.path.join(common.VERIF, "extract", "spmodel_" + d)
+        if os.path.exists(binary) and os.path.getmtime(binary) >= newest(model_sources()):
+            continue
+        okb, logb = common.ensure_build(["theories/Extract/Roots%s.vo" % d])
+        r = common.sh("./build.sh %s 2>&1 | tail -30" % d, cwd=os.path.join(common.VERIF, "extract"))
+        if not okb or not os.path.exists(binary) or "rror" in r.stdout:
+            ok = False
+            logs.append(logb[-300:] + r.stdout[-500:])
+    return ok, "\n".join(logs)
+
+
+ALL_DOMAINS = ["Card", "Logic", "Comb", "Text", "Out", "Cont", "Design", "Layout", "Decode", "Compile", "Check", "Random",
+               "Front", "Hist", "Derive", "SM"]
 
 
 def setup():
@@ -40,16 +54,15 @@ def setup():
 
 
 def _setup():
-    ok, log = common.ensure_build()
-    print(log[-3000:])
-    if not ok:
-        print("SETUP: coq build failed")
-        return 1
-    ok, log = ensure_model()
+    common.gen_coqproject()
+    r = common.sh("coq_makefile -f _CoqProject -o Makefile >/dev/null 2>&1; timeout 6000 make -k -j16 2>&1 | tail -60", cwd=common.COQ)
+    print(r.stdout[-3000:])
+    failed = "Error" in r.stdout or "*** " in r.stdout
+    doms = [d for d in ALL_DOMAINS if os.path.exists(os.path.join(common.COQ, "theories", "Extract", "Roots%s.v" % d))]
+    ok, log = ensure_model(doms)
     print(log)
-    if not ok:
-        print("SETUP: extraction / driver build failed")
-        return 1
+    if failed or not ok:
+        print("SETUP: some files failed to build (the checks of the properties that depend on them will report it)")
     bad = common.forbidden_audit()
     if bad:
         print("SETUP: forbidden tokens:\n" + "\n".join(bad))
@@ -72,6 +85,8 @@ def main():
     seed = int(os.environ.get("VERIF_SEED", "0") or 0)
     ctx = Ctx(prop, tier, seed)
     mod = importlib.import_module("props." + prop.lower())
+    domains = list(getattr(mod, "DOMAINS", ["Design"]))
+    common.DEFAULT_DOMAIN[0] = domains[0]
 
     if a.replay:
         data = json.load(open(a.replay))
@@ -86,10 +101,10 @@ def main():
         tie_problems += problems
     else:
       with common.build_lock():
-        ok, log = common.ensure_build()
+        ok, log = common.ensure_build(["theories/Properties/%s.vo" % prop])
         if not ok:
             tie_problems.append("coq build failed: " + log.strip()[-600:])
-        ok, log = ensure_model()
+        ok, log = ensure_model(domains)
         if not ok:
             tie_problems.append("model extraction/driver build failed: " + log.strip()[-600:])
         bad = common.forbidden_audit()
